@@ -102,6 +102,15 @@ func c01Property(t *rapid.T, st *Stats) {
 		"upload": func(t *rapid.T) {
 			rn := rapid.SampledFrom(c01Repos).Draw(t, "repo")
 			p := drawUploadPlan(t, rn, drawContent(t), true)
+			// declared digest = the digest of OTHER content that this repository already holds
+			if have := sortedKeys(e.repo(rn).blobs); len(have) > 0 && rapid.IntRange(0, 5).Draw(t, "declareExisting") == 0 {
+				d := rapid.SampledFrom(have).Draw(t, "existingDigest")
+				if !hashesTo(d, p.content) {
+					p.declared, p.wrongKind = d, "existing"
+					p.finalAlg = d[:strings.Index(d, ":")]
+					e.class("wrong-digest-of-existing-blob")
+				}
+			}
 			e.logf("upload %s len=%d proto=%d postAlg=%q finalAlg=%s cuts=%v lastInPut=%v wrong=%q unknownCL=%v", rn, len(p.content), p.proto, p.postAlg, p.finalAlg, p.cuts, p.lastInPut, p.wrongKind, p.unknownCL)
 			ur := e.runUpload(p)
 			e.universe[p.declared] = true
